@@ -87,12 +87,24 @@ func (t *timeScalar) CoerceOut(v interface{}) (interface{}, error) {
 	case nil:
 		// remains nil
 	case float64:
-		secs := int64(tv)
-		tt = time.Unix(0, secs*int64(time.Second)).In(time.UTC).Add(time.Duration((tv - float64(secs)) * float64(time.Second)))
+		if -maxTimeSecs <= tv && tv <= maxTimeSecs {
+			secs := int64(tv)
+			tt = time.Unix(0, secs*int64(time.Second)).In(time.UTC).Add(time.Duration((tv - float64(secs)) * float64(time.Second)))
+		} else { // nanoseconds since the epoch would overflow
+			err = newCoerceErr(v, "Time")
+			v = nil
+		}
 	case int64:
-		tt = time.Unix(0, tv*int64(time.Second)).In(time.UTC)
+		if -maxTimeSecs <= tv && tv <= maxTimeSecs {
+			tt = time.Unix(0, tv*int64(time.Second)).In(time.UTC)
+		} else {
+			err = newCoerceErr(v, "Time")
+			v = nil
+		}
 	case string:
-		tt, err = time.Parse(time.RFC3339Nano, tv)
+		if tt, err = time.Parse(time.RFC3339Nano, tv); err != nil {
+			v = nil
+		}
 	case time.Time:
 		tt = tv
 	default:
